@@ -440,7 +440,8 @@ void WorldQ::on_send_event(const Event &e) {
       if (!greeted[ch]) { greeted[ch] = true; from = 1; }   // the spawner's first byte announces its concurrency limit
       for (size_t q = from; q < (size_t)e.ret; q++) {
         char c = e.data[q]; std::string &b = repbuf[ch];
-        if (b.size() < 10000) b.push_back(c); else if (!c) b[9999] = 0;
+        // (the daemon keeps the first REPORTMAX = 10000 bytes of a record - delivery number, verdict letter, 9998 bytes of text - and drops the rest)
+        if (b.size() < 10000) b.push_back(c); else if (!c) b.push_back(c);
         if (!c && b.size() > 1) {
           int dn = (unsigned char)b[0]; std::string text = b.substr(1, b.size() - 2); if (text.find('\0') != std::string::npos) text = text.substr(0, text.find('\0'));
           if (delnum_used[ch].count(dn) && dn < std::min(conc[ch], spawn_limit[ch])) on_report(ch, dn, text, true);
